@@ -77,6 +77,7 @@ Fixpoint all_default (E : env) (n : node) : bool :=
   | Node h subs =>
       match ukind_of (h_kind h) with
       | UNothing => true
+      | UOwn => match self_safe E None h with Ok true => true | _ => false end
       | UFunction => match function_name h subs with
                      | Ok fn => mem fn (node_trusted E None h)
                      | Raise _ => false
@@ -101,6 +102,7 @@ Proof.
   induction n as [h subs IH|sl id|sl l] using node_ind'; cbn [all_default unsafe_tree]; intros H.
   - destruct (ukind_of (h_kind h)).
     + reflexivity.
+    + unfold own_unsafe. destruct (self_safe E None h) as [[|]|e]; try discriminate. reflexivity.
     + unfold fn_unsafe. destruct (function_name h subs) as [fn|e]; [|discriminate].
       cbn [bind]. rewrite H. reflexivity.
     + unfold own_unsafe. destruct (self_safe E None h) as [[|]|e]; try discriminate.
@@ -132,6 +134,8 @@ Proof.
   cbn [unsafe_g] in H. destruct n as [h subs|sl id|sl lf]; cbn [all_default] in Hn.
   - destruct (ukind_of (h_kind h)).
     + injection H as <-. reflexivity.
+    + unfold own_unsafe in H. destruct (self_safe E None h) as [[|]|e]; try discriminate.
+      cbn [bind] in H. injection H as <-. reflexivity.
     + unfold fn_unsafe in H. destruct (function_name h subs) as [fn|e]; [|discriminate].
       cbn [bind] in H. rewrite Hn in H. injection H as <-. reflexivity.
     + destruct (on_path h path); [injection H as <-; reflexivity|].
